@@ -32,6 +32,8 @@ impl FromJsonMap for IssuingJurisdiction {
     fn from_map(map: &Map<String, Json>) -> Result<Self, FromJsonError> {
         let jurisdiction = map
             .get("issuing_jurisdiction")
+            // null means absent, as for every other optional field
+            .filter(|v| !v.is_null())
             .ok_or(FromJsonError::Missing)
             .and_then(String::from_json)?;
 
